@@ -2,99 +2,10 @@
 use super::*;
 use nalgebra::Point2;
 
-const MAXN: usize = 4;
-static mut CALLS: usize = 0;
-static mut IN_TAG: [u32; MAXN] = [0; MAXN];
-static mut IN_PT: [(u32, u32); MAXN] = [(0, 0); MAXN];
-static mut OUT_TAG: [u32; MAXN] = [0; MAXN];
-static mut OUT_DIST: [u32; MAXN] = [0; MAXN];
-
-fn tagged(tag: f32) -> KalmanState<DIM_2D_POINT_X2> {
-    let mut s = unsafe { core::mem::zeroed::<KalmanState<DIM_2D_POINT_X2>>() };
-    s.mean[0] = tag;
-    s
-}
-fn tag_of(s: &KalmanState<DIM_2D_POINT_X2>) -> u32 { s.mean[0].to_bits() }
-
-/// Recording stubs for the single-point filter: each call logs what it received and returns a
-/// fresh symbolic state (identified by a symbolic tag) resp. a fresh symbolic distance.
-fn record(in_tag: u32, pt: (u32, u32)) -> f32 {
-    let t: f32 = kani::any();
-    unsafe {
-        let k = CALLS;
-        if k < MAXN { IN_TAG[k] = in_tag; IN_PT[k] = pt; OUT_TAG[k] = t.to_bits(); OUT_DIST[k] = t.to_bits(); }
-        CALLS = k + 1;
-    }
-    t
-}
-fn stub_initiate(_f: &Point2DKalmanFilter, p: &Point2<f32>) -> KalmanState<DIM_2D_POINT_X2> { tagged(record(0, (p.x.to_bits(), p.y.to_bits()))) }
-fn stub_predict(_f: &Point2DKalmanFilter, s: &KalmanState<DIM_2D_POINT_X2>) -> KalmanState<DIM_2D_POINT_X2> { tagged(record(tag_of(s), (0, 0))) }
-fn stub_update(_f: &Point2DKalmanFilter, s: &KalmanState<DIM_2D_POINT_X2>, p: &Point2<f32>) -> KalmanState<DIM_2D_POINT_X2> { tagged(record(tag_of(s), (p.x.to_bits(), p.y.to_bits()))) }
-fn stub_distance(_f: &Point2DKalmanFilter, s: &KalmanState<DIM_2D_POINT_X2>, p: &Point2<f32>) -> f32 { record(tag_of(s), (p.x.to_bits(), p.y.to_bits())) }
-
-fn any_points<const N: usize>() -> Vec<Point2<f32>> {
-    let mut v = Vec::with_capacity(N);
-    for _ in 0..N { v.push(Point2::from([kani::any::<f32>(), kani::any::<f32>()])); }
-    v
-}
-fn any_states<const N: usize>() -> Vec<KalmanState<DIM_2D_POINT_X2>> {
-    let mut v = Vec::with_capacity(N);
-    for _ in 0..N { v.push(tagged(kani::any())); }
-    v
-}
-
-fn independence<const N: usize>() {
-    let f = Vec2DKalmanFilter::default();
-    let pts = any_points::<N>();
-    let sts = any_states::<N>();
-    let which: u8 = kani::any();
-    kani::assume(which < 4);
-    unsafe { CALLS = 0; }
-    let (out_tags, n_out): ([u32; MAXN], usize) = {
-        let mut o = [0u32; MAXN];
-        let n;
-        match which {
-            0 => { let r = f.initiate(&pts); n = r.len(); for i in 0..n.min(MAXN) { o[i] = tag_of(&r[i]); } }
-            1 => { let r = f.predict(&sts); n = r.len(); for i in 0..n.min(MAXN) { o[i] = tag_of(&r[i]); } }
-            2 => { let r = f.update(&sts, &pts); n = r.len(); for i in 0..n.min(MAXN) { o[i] = tag_of(&r[i]); } }
-            _ => { let r = f.distance(&sts, &pts); n = r.len(); for i in 0..n.min(MAXN) { o[i] = r[i].to_bits(); } }
-        }
-        (o, n)
-    };
-    let (calls, in_tag, in_pt, out_tag) = unsafe { (CALLS, IN_TAG, IN_PT, OUT_TAG) };
-    kani::cover!(which == 2, "reach/c07_vec_independence update");
-    kani::cover!(which == 3, "reach/c07_vec_independence distance");
-    assert!(n_out == N && calls == N, "C07/vec.one_call_per_point: exactly one single-point filter call and one output per point");
-    for i in 0..N {
-        assert!(out_tags[i] == out_tag[i], "C07/vec.output_i_is_result_of_call_i: output i is exactly the result of the i-th single-point call");
-        if which != 0 {
-            assert!(in_tag[i] == tag_of(&sts[i]), "C07/vec.call_i_gets_state_i: the i-th call receives exactly state i");
-        }
-        if which != 1 {
-            assert!(in_pt[i] == (pts[i].x.to_bits(), pts[i].y.to_bits()), "C07/vec.call_i_gets_point_i: the i-th call receives exactly point i");
-        }
-    }
-}
-
-//@H props=C07 kind=bounded tier=quick stubs=yes fn=Vec2DKalmanFilter::initiate,Vec2DKalmanFilter::predict,Vec2DKalmanFilter::update,Vec2DKalmanFilter::distance bound="3 points" timeout=600
-//@H clause: the vector filter treats its points independently: output i is the single-point filter applied to (state i, point i) and nothing else (single-point filter by recording stubs)
-#[kani::proof]
-#[kani::stub(Point2DKalmanFilter::initiate, stub_initiate)]
-#[kani::stub(Point2DKalmanFilter::predict, stub_predict)]
-#[kani::stub(Point2DKalmanFilter::update, stub_update)]
-#[kani::stub(Point2DKalmanFilter::distance, stub_distance)]
-#[kani::unwind(20)]
-fn c07_vec_independence_len3() { independence::<3>(); }
-
-//@H props=C07 kind=bounded tier=quick stubs=yes fn=Vec2DKalmanFilter::initiate,Vec2DKalmanFilter::predict,Vec2DKalmanFilter::update,Vec2DKalmanFilter::distance bound="1 point" timeout=600
-//@H clause: same, one point
-#[kani::proof]
-#[kani::stub(Point2DKalmanFilter::initiate, stub_initiate)]
-#[kani::stub(Point2DKalmanFilter::predict, stub_predict)]
-#[kani::stub(Point2DKalmanFilter::update, stub_update)]
-#[kani::stub(Point2DKalmanFilter::distance, stub_distance)]
-#[kani::unwind(20)]
-fn c07_vec_independence_len1() { independence::<1>(); }
+// The former call-trace harnesses (`exactly one single-point call per point, the i-th call gets state i`) demanded an
+// implementation shape rather than the property (a vector filter that visits its points in another order, or calls a
+// split helper, is still independent per point): removed. Independence is now the bounded probe kalman_point_c07
+// (vector results bit-identical to the point filter applied to each point alone, for states of different ages, any order).
 
 //@H props=C07 kind=bounded tier=quick stubs=no fn=Vec2DKalmanFilter::calculate_cost bound="3 distances"
 //@H clause: the vector cost conversion is the element-wise single-point conversion
